@@ -237,7 +237,7 @@ def write_evidence(pid, tier, seed, results, wall, viol_n, mod, known_hit):
             "paths_explored": paths,
             "fork_decisions": forks,
             "path_outcomes": outcomes,
-            "reachability": {k: sum(r.get("reach", {}).get(k, 0) for r in results) for k in ("sat", "unknown", "unsat")},
+            "reachability": {k: sum(r.get("reach", {}).get(k, 0) for r in results) for k in ("sat", "unknown", "unsat", "unchecked")},
             "witness_validation_mismatches": sum(len(r.get("validation_mismatch", [])) for r in results),
             "solver_time_s": round(sum(r.get("solver_time", 0.0) for r in results), 2),
             "solvers": "z3 %s (python API); cvc5 cross-check in thorough tier" % _z3v(),
